@@ -23,7 +23,6 @@ intervener_regex = re.compile(
         |
         (?P<and>and|&)
     )
-    \s*
     )
     """, re.IGNORECASE | re.VERBOSE)
 
